@@ -3,7 +3,7 @@
 use super::IpVersion;
 use crate::{
     bencode,
-    message::{Message, TransactionId},
+    message::{Message, MessageBody, TransactionId},
     SocketTrait,
 };
 use async_trait::async_trait;
@@ -76,12 +76,18 @@ impl Socket {
             let (size, addr) = r?;
             match bencode::decode::<Message>(&buffer[0..size]) {
                 Ok(message) => {
-                    if let Some(responded) = self
-                        .transactions
-                        .lock()
-                        .unwrap()
-                        .remove(&(addr, message.transaction_id.clone()))
-                    {
+                    // Only a reply can complete a pending exchange. A request is always passed on,
+                    // even if its sender reuses the transaction id of our request to it.
+                    let responded = if matches!(message.body, MessageBody::Request(_)) {
+                        None
+                    } else {
+                        self.transactions
+                            .lock()
+                            .unwrap()
+                            .remove(&(addr, message.transaction_id.clone()))
+                    };
+
+                    if let Some(responded) = responded {
                         vtrace!("{} S routed {addr}", self.local_addr);
                         responded.lock().unwrap().make_ready(message);
                     } else {
